@@ -23,6 +23,8 @@ fn main() {
         ("c04", "replay") => yv::c04::replay(&args),
         ("c18", "record") => yv::c18::record(&args),
         ("c18", "replay") => yv::c18::replay(&args),
+        ("c16", "record") => yv::c16::record(&args),
+        ("c16", "replay") => yv::c16::replay(&args),
         _ => { eprintln!("unknown command {:?}", &a[..2]); std::process::exit(2); }
     }
 }
